@@ -85,6 +85,8 @@ func GenScript(r *hx.Rand, kinds []string, nops int) []string {
 		switch x := r.Intn(100); {
 		case x >= 100-Corruption:
 			script = append(script, fmt.Sprintf("corrupt %d", r.Intn(total)))
+		case x == 0 && bm.Alloc == "dev" && Corruption == 0:
+			script = append(script, fmt.Sprintf("ioerr %s %d", []string{"r", "w"}[r.Intn(2)], r.Intn(3)))
 		case x < 30:
 			script = append(script, fmt.Sprintf("put %d %d %d %s %s", nextOp, r.Intn(total), r.Intn(3), chunkings[r.Intn(len(chunkings))], faults[r.Intn(len(faults))]))
 			if r.Chance(2, 3) {
